@@ -96,8 +96,10 @@ func (f *Fragmentation) Process(id uint32, first, last uint16, more bool, vv buf
 		f.rList.PushFront(r)
 	}
 	f.mu.Unlock()
+	verifYield("frag.Process.found")
 
 	res, done, consumed := r.process(first, last, more, vv)
+	verifYield("frag.Process.processed")
 
 	f.mu.Lock()
 	f.size += consumed
@@ -114,6 +116,7 @@ func (f *Fragmentation) Process(id uint32, first, last uint16, more bool, vv buf
 		}
 	}
 	f.mu.Unlock()
+	verifYield("frag.Process.released")
 	return res, done
 }
 
